@@ -91,38 +91,172 @@ theorem get?_indexAssign_new (r r' : Json) (k : String) (v : Json) (hnew : r.get
 
 /-! ### `format_response` -/
 
-/-- the row text `format_response` produces (empty when it panics) -/
+/-- the row text `format_response` produces (empty when it does not return) -/
 def rowOf (N : NumOps) (f : Format) (r : Json) : List Char :=
   match formatResponse N f r with
   | .ok (row, _) => row
-  | .panic => []
+  | _ => []
 
 /-- the response `format_response` leaves behind -/
 def postOf (N : NumOps) (f : Format) (r : Json) : Json :=
   match formatResponse N f r with
   | .ok (_, r') => r'
-  | .panic => r
+  | _ => r
 
 /-- the chunk `write_response` appends for `r` -/
 def recordOf (N : NumOps) (f : Format) (r : Json) : List Char := record (rowOf N f r)
 
-/-- `format_response` does not panic on `r` -/
-def Writable (N : NumOps) (f : Format) (r : Json) : Prop := formatResponse N f r ≠ .panic
+/-- `format_response` returns on `r` (it neither panics nor loops) -/
+def Writable (N : NumOps) (f : Format) (r : Json) : Prop := ∃ p, formatResponse N f r = .ok p
 
 theorem formatResponse_of_writable {N : NumOps} {f : Format} {r : Json} (h : Writable N f r) :
     formatResponse N f r = .ok (rowOf N f r, postOf N f r) := by
-  unfold Writable at h
+  obtain ⟨p, hp⟩ := h
   unfold rowOf postOf
-  cases hf : formatResponse N f r with
-  | ok a => rfl
-  | panic => exact absurd hf h
+  rw [hp]
 
 theorem writable_json (N : NumOps) (nd : Bool) (r : Json) : Writable N (.json nd) r := by
-  simp [Writable, formatResponse]
+  exact ⟨_, rfl⟩
 
 theorem indexAssign_isSome_of_obj_or_null (r : Json) (k : String) (v : Json)
     (h : r.isObject = true ∨ r.isNull = true) : ∃ r', Json.indexAssign r k v = some r' := by
   cases r <;> simp_all [Json.indexAssign, Json.isObject, Json.isNull]
+
+/-! #### the search for a free error key ends, and finds a key that is not there -/
+
+theorem toDigits_inj : ∀ (n m : Nat), Nat.toDigits 10 n = Nat.toDigits 10 m → n = m := by
+  intro n
+  induction n using Nat.strongRecOn with
+  | _ n ih =>
+    intro m h
+    have hd : ∀ a, a < 10 → ∀ b, b < 10 → Nat.digitChar a = Nat.digitChar b → a = b := by decide
+    rw [Nat.toDigits_eq_if (by decide : 1 < 10), Nat.toDigits_eq_if (n := m) (by decide : 1 < 10)] at h
+    by_cases hn : n < 10 <;> by_cases hm : m < 10 <;> simp only [hn, hm, if_true, if_false] at h
+    · exact hd n hn m hm (by simpa using h)
+    · have := congrArg List.length h
+      have hpos := Nat.length_toDigits_pos (b := 10) (n := m / 10)
+      simp at this
+      try omega
+    · have := congrArg List.length h
+      have hpos := Nat.length_toDigits_pos (b := 10) (n := n / 10)
+      simp at this
+      try omega
+    · obtain ⟨h1, h2⟩ := List.append_inj' h rfl
+      have e1 := ih (n / 10) (by omega) (m / 10) h1
+      have e2 := hd (n % 10) (Nat.mod_lt _ (by decide)) (m % 10) (Nat.mod_lt _ (by decide)) (by simpa using h2)
+      omega
+
+theorem errorKeyName_length_ge (a : Nat) (h : 2 ≤ a) : 11 ≤ (errorKeyName a).toList.length := by
+  unfold errorKeyName
+  have h0 : ¬ a = 0 := by omega
+  have h1 : ¬ a = 1 := by omega
+  simp only [h0, h1, if_false, String.toList_append, List.length_append]
+  have : ("csv_error_" : String).toList.length = 10 := by decide
+  have hpos := Nat.length_toDigits_pos (b := 10) (n := a)
+  rw [this, Nat.toString_eq_repr, Nat.toList_repr]
+  omega
+
+theorem errorKeyName_inj (a b : Nat) (h : errorKeyName a = errorKeyName b) : a = b := by
+  have hl : (errorKeyName a).toList.length = (errorKeyName b).toList.length := by rw [h]
+  have l0 : (errorKeyName 0).toList.length = 5 := by decide
+  have l1 : (errorKeyName 1).toList.length = 9 := by decide
+  by_cases ha0 : a = 0
+  · subst ha0
+    by_cases hb0 : b = 0
+    · exact hb0.symm
+    · by_cases hb1 : b = 1
+      · subst hb1; rw [l0, l1] at hl; omega
+      · have := errorKeyName_length_ge b (by omega); rw [l0] at hl; omega
+  · by_cases ha1 : a = 1
+    · subst ha1
+      by_cases hb0 : b = 0
+      · subst hb0; rw [l0, l1] at hl; omega
+      · by_cases hb1 : b = 1
+        · exact hb1.symm
+        · have := errorKeyName_length_ge b (by omega); rw [l1] at hl; omega
+    · have ga := errorKeyName_length_ge a (by omega)
+      by_cases hb0 : b = 0
+      · subst hb0; rw [l0] at hl; omega
+      · by_cases hb1 : b = 1
+        · subst hb1; rw [l1] at hl; omega
+        · unfold errorKeyName at h
+          simp only [ha0, ha1, hb0, hb1, if_false] at h
+          have h' := congrArg String.toList h
+          simp only [String.toList_append] at h'
+          have h'' := List.append_cancel_left h'
+          rw [Nat.toString_eq_repr, Nat.toString_eq_repr, Nat.toList_repr, Nat.toList_repr] at h''
+          exact toDigits_inj a b h''
+
+theorem freshErrorKey_new (r : Json) (fuel a : Nat) (k : String) (h : freshErrorKey r fuel a = some k) :
+    r.get? k = none := by
+  induction fuel generalizing a with
+  | zero => simp [freshErrorKey] at h
+  | succ f ih =>
+    simp only [freshErrorKey] at h
+    split at h
+    · rename_i hn
+      simp only [Option.some.injEq] at h
+      rw [← h]
+      simpa using hn
+    · exact ih (a + 1) h
+
+theorem freshErrorKey_none (r : Json) (fuel a : Nat) (h : freshErrorKey r fuel a = none) :
+    ∀ i, a ≤ i → i < a + fuel → r.get? (errorKeyName i) ≠ none := by
+  induction fuel generalizing a with
+  | zero => intro i h1 h2; omega
+  | succ f ih =>
+    simp only [freshErrorKey] at h
+    split at h
+    · simp at h
+    · rename_i hn
+      intro i h1 h2
+      by_cases hi : i = a
+      · subst hi; simpa using hn
+      · exact ih (a + 1) h i (by omega) (by omega)
+
+theorem mem_keys_of_lookup (kvs : List (String × Json)) (k : String) (h : Json.lookup kvs k ≠ none) :
+    k ∈ kvs.map (·.1) := by
+  unfold Json.lookup at h
+  cases hf : kvs.find? (fun p => p.1 == k) with
+  | none => simp [hf] at h
+  | some p =>
+    have hm := List.mem_of_find?_eq_some hf
+    have hk := List.find?_some hf
+    simp only [beq_iff_eq] at hk
+    exact List.mem_map.2 ⟨p, hm, hk⟩
+
+/-- the `while` loop ends: an object with `n` entries cannot hold all of the first `n + 2` key names (they
+are pairwise different) -/
+theorem freshErrorKey_terminates (r : Json) : ∃ k, csvErrorKey r = some k := by
+  unfold csvErrorKey
+  cases h : freshErrorKey r (entryCount r + 2) 0 with
+  | some k => exact ⟨k, rfl⟩
+  | none =>
+    exfalso
+    have hall := freshErrorKey_none r _ 0 h
+    cases r with
+    | obj kvs =>
+      simp only [entryCount] at hall
+      have hnd : ((List.range (kvs.length + 2)).map errorKeyName).Nodup := by
+        refine List.Pairwise.map errorKeyName ?_ List.nodup_range
+        intro a b hab e
+        exact hab (errorKeyName_inj a b e)
+      have hsub : (List.range (kvs.length + 2)).map errorKeyName ⊆ kvs.map (·.1) := by
+        intro k hk
+        obtain ⟨i, hi, rfl⟩ := List.mem_map.1 hk
+        have := hall i (Nat.zero_le _) (by simpa using List.mem_range.1 hi)
+        exact mem_keys_of_lookup kvs _ (by simpa [Json.get?] using this)
+      have := hnd.length_le_of_subset hsub
+      simp at this
+      omega
+    | null => exact hall 0 (Nat.le_refl _) (by simp [entryCount]) rfl
+    | bool b => exact hall 0 (Nat.le_refl _) (by simp [entryCount]) rfl
+    | num l b => exact hall 0 (Nat.le_refl _) (by simp [entryCount]) rfl
+    | str s => exact hall 0 (Nat.le_refl _) (by simp [entryCount]) rfl
+    | arr xs => exact hall 0 (Nat.le_refl _) (by simp [entryCount]) rfl
+
+theorem csvErrorKey_new (r : Json) (k : String) (h : csvErrorKey r = some k) : r.get? k = none :=
+  freshErrorKey_new r _ 0 k h
 
 theorem writable_of_obj_or_null (N : NumOps) (f : Format) (r : Json)
     (h : r.isObject = true ∨ r.isNull = true) : Writable N f r := by
@@ -132,49 +266,46 @@ theorem writable_of_obj_or_null (N : NumOps) (f : Format) (r : Json)
     unfold Writable formatResponse
     simp only
     split
-    · simp
-    · obtain ⟨r', hr'⟩ := indexAssign_isSome_of_obj_or_null r (csvErrorKey r)
+    · exact ⟨_, rfl⟩
+    · obtain ⟨k, hk⟩ := freshErrorKey_terminates r
+      obtain ⟨r', hr'⟩ := indexAssign_isSome_of_obj_or_null r k
         (csvErrorValue (failedKeys N (rowColumns m s) r)) h
-      rw [hr']
-      simp
+      rw [hk]
+      simp only [hr']
+      exact ⟨_, rfl⟩
 
 /-- what the CSV formatter does to the response, spelled out -/
 theorem formatResponse_csv_cases (N : NumOps) (m : List (String × CsvMapping)) (s : Bool) (r : Json)
     (row : List Char) (r' : Json) (h : formatResponse N (.csv m s) r = .ok (row, r')) :
     row = csvRow N (rowColumns m s) r ∧
-    (r' = r ∨ Json.indexAssign r (csvErrorKey r) (csvErrorValue (failedKeys N (rowColumns m s) r)) = some r') := by
+    (r' = r ∨ ∃ k, csvErrorKey r = some k ∧ failedKeys N (rowColumns m s) r ≠ [] ∧
+      Json.indexAssign r k (csvErrorValue (failedKeys N (rowColumns m s) r)) = some r') := by
   unfold formatResponse at h
   simp only at h
   split at h
   · simp only [Outcome.ok.injEq, Prod.mk.injEq] at h
     exact ⟨h.1.symm, Or.inl h.2.symm⟩
-  · split at h
-    · rename_i r'' hr''
-      simp only [Outcome.ok.injEq, Prod.mk.injEq] at h
-      exact ⟨h.1.symm, Or.inr (by rw [hr'', h.2])⟩
+  · rename_i hne
+    split at h
     · exact absurd h (by simp)
-
-theorem csvErrorKey_new (r : Json) (h : r.get? "error" = none ∨ r.get? "csv_error" = none) :
-    r.get? (csvErrorKey r) = none := by
-  unfold csvErrorKey
-  cases he : r.get? "error" with
-  | none => simp [he]
-  | some v =>
-    simp only [Option.isSome_some, if_true]
-    cases h with
-    | inl h => rw [he] at h; exact absurd h (by simp)
-    | inr h => exact h
+    · rename_i k hk
+      split at h
+      · rename_i r'' hr''
+        simp only [Outcome.ok.injEq, Prod.mk.injEq] at h
+        refine ⟨h.1.symm, Or.inr ⟨k, hk, ?_, by rw [hr'', h.2]⟩⟩
+        intro e; rw [e] at hne; exact hne rfl
+      · exact absurd h (by simp)
 
 /-! ### one `write_response` -/
 
-theorem write_ok_of_writable (N : NumOps) (s : FileSink) (r : Json) (hp : s.poisoned = false)
+theorem write_ok_of_writable (N : NumOps) (s : FileSink) (r : Json) (hp : s.Healthy)
     (hw : Writable N s.format r) :
     ∃ s', s.write N r = .ok s' (postOf N s.format r) ∧
       s'.file = s.file ++ [recordOf N s.format r] ∧ s'.iterations = s.iterations + 1 ∧
-      s'.format = s.format ∧ s'.poisoned = false ∧ s'.flushEvery = s.flushEvery := by
+      s'.format = s.format ∧ s'.Healthy ∧ s'.flushEvery = s.flushEvery := by
   unfold FileSink.write
-  rw [hp, formatResponse_of_writable hw]
-  simp [recordOf]
+  rw [hp.1, formatResponse_of_writable hw]
+  simp [recordOf, hp.2, FileSink.Healthy]
 
 /-! ### Combined sinks -/
 
@@ -189,7 +320,8 @@ theorem isObject_postOf (N : NumOps) (f : Format) (r : Json) (h : r.isObject = t
   | csv m s =>
     rcases (formatResponse_csv_cases N m s r _ _ hf).2 with e | e
     · rw [e]; exact h
-    · cases r with
+    · obtain ⟨k, _, _, e⟩ := e
+      cases r with
       | obj kvs =>
         simp only [Json.indexAssign, Option.some.injEq] at e
         rw [← e]; rfl
@@ -204,7 +336,7 @@ def AppendedOne : List FileSink → List FileSink → Prop
   | _, _ => False
 
 theorem writeCombined_objects (N : NumOps) (ss : List FileSink) (r : Json)
-    (hp : ∀ s ∈ ss, s.poisoned = false) (hr : r.isObject = true) :
+    (hp : ∀ s ∈ ss, s.Healthy) (hr : r.isObject = true) :
     ∃ ss' r', writeCombined N ss r = .ok ss' r' ∧ r'.isObject = true ∧ AppendedOne ss ss' := by
   induction ss generalizing r with
   | nil => exact ⟨[], r, rfl, hr, trivial⟩
@@ -256,14 +388,14 @@ structure Progress (N : NumOps) (persist : Bool) (s s' : Run) (trace : List Json
   queues : (trace ++ s'.queues.flatten).Perm s.queues.flatten
   iterations : s'.sink.iterations = s.sink.iterations + trace.length
   format : s'.sink.format = s.sink.format
-  poisoned : s'.sink.poisoned = false
+  poisoned : s'.sink.Healthy
   failed : s'.failed = s.failed
   width : s'.queues.length = s.queues.length
   retWidth : s'.returned.length = s.returned.length
   returned : s'.returned.flatten.Perm
     (s.returned.flatten ++ if persist then trace.map (postOf N s.sink.format) else [])
 
-theorem step_progress (N : NumOps) (persist : Bool) (s : Run) (w : Nat) (hp : s.sink.poisoned = false)
+theorem step_progress (N : NumOps) (persist : Bool) (s : Run) (w : Nat) (hp : s.sink.Healthy)
     (hw : ∀ r ∈ s.queues.flatten, Writable N s.sink.format r) (hlen : s.returned.length = s.queues.length) :
     ∃ t, Progress N persist s (s.step N persist w) t := by
   unfold Run.step
@@ -319,7 +451,7 @@ theorem Progress.trans {N : NumOps} {persist : Bool} {s s₁ s₂ : Run} {t₁ t
       exact List.Perm.append_right _ h₁.returned
 
 theorem exec_progress (N : NumOps) (persist : Bool) (sched : List Nat) (s : Run)
-    (hp : s.sink.poisoned = false) (hw : ∀ r ∈ s.queues.flatten, Writable N s.sink.format r)
+    (hp : s.sink.Healthy) (hw : ∀ r ∈ s.queues.flatten, Writable N s.sink.format r)
     (hlen : s.returned.length = s.queues.length) :
     ∃ t, Progress N persist s (s.exec N persist sched) t := by
   induction sched generalizing s with
@@ -358,7 +490,7 @@ theorem handBack_step (N : NumOps) (f : Format) (ret qs : List (List Json)) (w :
         simp only [List.getElem?_cons_succ] at h
         simp only [List.modify_succ_cons, List.set_cons_succ, List.zipWith_cons_cons, ih ret w h]
 
-theorem step_handBack (N : NumOps) (s : Run) (w : Nat) (hp : s.sink.poisoned = false)
+theorem step_handBack (N : NumOps) (s : Run) (w : Nat) (hp : s.sink.Healthy)
     (hw : ∀ r ∈ s.queues.flatten, Writable N s.sink.format r) :
     handBack N s.sink.format (s.step N true w).returned (s.step N true w).queues
       = handBack N s.sink.format s.returned s.queues := by
@@ -375,7 +507,7 @@ theorem step_handBack (N : NumOps) (s : Run) (w : Nat) (hp : s.sink.poisoned = f
       simp only [hs', if_true]
       exact handBack_step N s.sink.format s.returned s.queues w r rest hq
 
-theorem exec_handBack (N : NumOps) (sched : List Nat) (s : Run) (hp : s.sink.poisoned = false)
+theorem exec_handBack (N : NumOps) (sched : List Nat) (s : Run) (hp : s.sink.Healthy)
     (hw : ∀ r ∈ s.queues.flatten, Writable N s.sink.format r) (hlen : s.returned.length = s.queues.length) :
     handBack N s.sink.format (s.exec N true sched).returned (s.exec N true sched).queues
       = handBack N s.sink.format s.returned s.queues := by
@@ -418,11 +550,11 @@ theorem handBack_init (N : NumOps) (f : Format) (qs : List (List Json)) :
 
 /-! ### the main thread's sequential writes, and schedules seen from the queues alone -/
 
-theorem writeSeq_spec (N : NumOps) (rs : List Json) (s : FileSink) (hp : s.poisoned = false)
+theorem writeSeq_spec (N : NumOps) (rs : List Json) (s : FileSink) (hp : s.Healthy)
     (hw : ∀ r ∈ rs, Writable N s.format r) :
     ∃ s', writeSeq N s rs = some (s', rs.map (postOf N s.format)) ∧
       s'.file = s.file ++ rs.map (recordOf N s.format) ∧ s'.iterations = s.iterations + rs.length ∧
-      s'.format = s.format ∧ s'.poisoned = false := by
+      s'.format = s.format ∧ s'.Healthy := by
   induction rs generalizing s with
   | nil => exact ⟨s, rfl, by simp, rfl, rfl, hp⟩
   | cons r rs ih =>
@@ -654,159 +786,6 @@ theorem numsOk_apply (N : NumOps) (hN : N.FmtOk) : ∀ (m : CsvMapping) (j v : J
       exact numsOk_apply N hN m j v' h hv'
     · simp only [Option.some.injEq] at ha
       rw [← ha]; rfl
-
-theorem cellText_no_newline (N : NumOps) (hN : N.FmtOk) (m : CsvMapping) (r : Json) (h : numsOk r = true) :
-    '\n' ∉ cellText N m r := by
-  unfold cellText
-  split
-  · rename_i v hv
-    exact compact_no_newline v (numsOk_apply N hN m r v h hv)
-  · simp
-
-theorem csvRow_no_newline (N : NumOps) (hN : N.FmtOk) (cols : List (String × CsvMapping)) (r : Json)
-    (h : numsOk r = true) : '\n' ∉ csvRow N cols r := by
-  unfold csvRow
-  apply joinWith_not_mem _ _ _ (by decide)
-  intro t ht
-  simp only [List.mem_map] at ht
-  obtain ⟨c, _, rfl⟩ := ht
-  exact cellText_no_newline N hN c.2 r h
-
-/-! ### how a reader splits a row -/
-
-/-- scanning a cell: `none` when a comma shows up outside quotes, otherwise the final quoting state -/
-def scan : List Char → Bool → Option Bool
-  | [], q => some q
-  | c :: cs, q => if c = '"' then scan cs (!q) else if c = ',' ∧ q = false then none else scan cs q
-
-/-- a reader takes the text as exactly one field -/
-def CommaSafe (t : List Char) : Prop := scan t false = some false
-
-theorem splitAux_append_of_scan (t rest : List Char) (q q' : Bool) (cur : List Char) (acc : List (List Char))
-    (h : scan t q = some q') : splitAux (t ++ rest) q cur acc = splitAux rest q' (t.reverse ++ cur) acc := by
-  induction t generalizing q cur with
-  | nil => simp [scan] at h; simp [h]
-  | cons c cs ih =>
-    simp only [scan] at h
-    simp only [List.cons_append, splitAux]
-    split
-    · rename_i hc
-      simp only [hc, if_true] at h
-      rw [ih _ _ h]; simp
-    · rename_i hc
-      simp only [hc, if_false] at h
-      split
-      · rename_i hc2
-        simp [hc2] at h
-      · rename_i hc2
-        simp only [hc2, if_false] at h
-        rw [ih _ _ h]; simp
-
-theorem splitAux_join (cells : List (List Char)) (hne : cells ≠ []) (h : ∀ t ∈ cells, CommaSafe t)
-    (acc : List (List Char)) : splitAux (joinWith [','] cells) false [] acc = acc.reverse ++ cells := by
-  induction cells generalizing acc with
-  | nil => exact absurd rfl hne
-  | cons x r ih =>
-    have hx : scan x false = some false := h x (List.mem_cons_self ..)
-    cases r with
-    | nil =>
-      have := splitAux_append_of_scan x [] false false [] acc hx
-      simp only [List.append_nil] at this
-      simp [joinWith, this, splitAux]
-    | cons y r' =>
-      have := splitAux_append_of_scan x (',' :: joinWith [','] (y :: r')) false false [] acc hx
-      simp only [joinWith, List.append_assoc, List.singleton_append, this, List.append_nil]
-      rw [splitAux]
-      simp only [show ¬ (',' = '"') by decide, if_false, and_self, if_true]
-      rw [ih (by simp) (fun t ht => h t (List.mem_cons_of_mem _ ht))]
-      simp
-
-/-- rows whose cells a reader takes as one field each split back into exactly those cells -/
-theorem splitRow_join (cells : List (List Char)) (hne : cells ≠ []) (h : ∀ t ∈ cells, CommaSafe t) :
-    splitRow (joinWith [','] cells) = cells := by
-  simpa [splitRow] using splitAux_join cells hne h []
-
-theorem scan_plain (t : List Char) (q : Bool) (h : ∀ c ∈ t, c ≠ '"' ∧ c ≠ ',') : scan t q = some q := by
-  induction t with
-  | nil => rfl
-  | cons c cs ih =>
-    have hc := h c (List.mem_cons_self ..)
-    simp only [scan, hc.1, hc.2, if_false, false_and]
-    exact ih (fun c' hc' => h c' (List.mem_cons_of_mem _ hc'))
-
-theorem scan_quoted (t : List Char) (h : '"' ∉ t) : scan t true = some true := by
-  induction t with
-  | nil => rfl
-  | cons c cs ih =>
-    simp only [List.mem_cons, not_or] at h
-    have hc : ¬ c = '"' := fun e => h.1 e.symm
-    simp only [scan, hc, if_false]
-    simp only [show (true = false) = False by simp, and_false, if_false]
-    exact ih h.2
-
-theorem scan_append (a b : List Char) (q q' : Bool) (h : scan a q = some q') : scan (a ++ b) q = scan b q' := by
-  induction a generalizing q with
-  | nil => simp [scan] at h; simp [h]
-  | cons c cs ih =>
-    simp only [scan] at h
-    simp only [List.cons_append, scan]
-    split
-    · rename_i hc; simp only [hc, if_true] at h; exact ih _ h
-    · rename_i hc
-      simp only [hc, if_false] at h
-      split
-      · rename_i hc2; simp [hc2] at h
-      · rename_i hc2; simp only [hc2, if_false] at h; exact ih _ h
-
-theorem hexDigit_ne_quote (n : Nat) : hexDigit n ≠ '"' := by
-  intro h
-  have := hexDigit_mem n
-  rw [h] at this
-  revert this
-  decide
-
-theorem escapeChar_no_quote (c : Char) (hc : c ≠ '"') : '"' ∉ escapeChar c := by
-  unfold escapeChar
-  have h1 := hexDigit_ne_quote (c.toNat / 16)
-  have h2 := hexDigit_ne_quote (c.toNat % 16)
-  repeat' split
-  all_goals simp_all
-  · exact ⟨fun h => h1 h.symm, fun h => h2 h.symm⟩
-  · intro h; exact absurd h.symm ‹¬c = '"'›
-
-theorem escapeChars_no_quote (cs : List Char) (h : '"' ∉ cs) : '"' ∉ escapeChars cs := by
-  induction cs with
-  | nil => simp [escapeChars]
-  | cons c cs ih =>
-    simp only [List.mem_cons, not_or] at h
-    simp only [escapeChars, List.mem_append, not_or]
-    exact ⟨escapeChar_no_quote c (fun e => h.1 e.symm), ih h.2⟩
-
-/-- values whose compact text a CSV reader takes as a single field -/
-def ScalarCell : Json → Prop
-  | .null => True
-  | .bool _ => True
-  | .num l _ => lexOk l = true
-  | .str s => '"' ∉ s.toList
-  | _ => False
-
-theorem isNumChar_plain (c : Char) (h : isNumChar c = true) : c ≠ '"' ∧ c ≠ ',' := by
-  constructor <;> (intro e; subst e; revert h; decide)
-
-theorem commaSafe_compact_of_scalar (v : Json) (h : ScalarCell v) : CommaSafe (compact v) := by
-  unfold CommaSafe
-  cases v with
-  | null => decide
-  | bool b => cases b <;> decide
-  | num l b =>
-    simp only [compact]
-    exact scan_plain _ _ (fun c hc => isNumChar_plain c (lexOk_all l h c hc))
-  | str s =>
-    simp only [compact, quoteStr, scan, if_true, Bool.not_false]
-    rw [scan_append _ _ _ _ (scan_quoted _ (escapeChars_no_quote _ h))]
-    decide
-  | arr xs => exact absurd h (by simp [ScalarCell])
-  | obj kvs => exact absurd h (by simp [ScalarCell])
 
 end Sink
 end Compass
